@@ -1,6 +1,7 @@
 package main
 
 import (
+	"strings"
 	"go/token"
 	"go/types"
 
@@ -163,9 +164,11 @@ func c08(c *Ctx) {
 			blocks []*ssa.BasicBlock // the Set's block and the blocks of the calls leading to it
 		}
 		var wbs []wb
+		chainOf := map[*ssa.Function][]*ssa.BasicBlock{}
 		var collect func(f *ssa.Function, chain []*ssa.BasicBlock, depth int)
 		collect = func(f *ssa.Function, chain []*ssa.BasicBlock, depth int) {
 			restoreFns[f] = true
+			chainOf[f] = chain
 			for _, s := range callsTo(f, setName) {
 				wbs = append(wbs, wb{s, append(append([]*ssa.BasicBlock{}, chain...), s.Block())})
 			}
@@ -234,6 +237,35 @@ func c08(c *Ctx) {
 			}
 			r.Check(guarded, "C08.R2", "write-back only if captured in "+shortName(sfn), p.Pos(posOf(s)), "write-back guarded by the captured predicate",
 				"Cancel writes the remembered slot back unconditionally: cancelling a variable mock that was never Set writes an invalid/zero value (reflect panics) instead of leaving the variable untouched")
+		}
+		// nothing touches the mocked variable's handle in Cancel unless a value was captured: for a mock that was never
+		// Set/Applied the handle may still be the zero reflect.Value (unexported-variable mocks resolve it lazily)
+		for rf, chain := range chainOf {
+			eachInstr(rf, func(i ssa.Instruction) {
+				ci, ok := i.(*ssa.Call)
+				if !ok || !strings.HasPrefix(calleeName(ci.Common()), "(reflect.Value).") || len(ci.Call.Args) == 0 {
+					return
+				}
+				_, fv, okF := fieldRef(resolveLocal(ci.Call.Args[0]))
+				if !okF || fv == nil || !targets[fv] {
+					return
+				}
+				guarded := false
+				for _, gb := range append(append([]*ssa.BasicBlock{}, chain...), i.Block()) {
+					for _, f := range fields {
+						if v, k := boolGuardOnField(gb, f); k && v {
+							guarded = true
+						}
+					}
+					for sl := range slots {
+						if isNil, k := nilGuardOnField(gb, sl); k && !isNil {
+							guarded = true
+						}
+					}
+				}
+				r.Check(guarded, "C08.R2", "variable handle used only if captured in "+shortName(rf)+" ("+calleeName(ci.Common())+")", p.Pos(posOf(i)), "reflect operation on the handle guarded by the captured predicate",
+					"Cancel operates on the variable's reflect handle before testing whether anything was captured: cancelling (or resetting a builder that holds) a variable mock that was never set panics on the zero handle, and the remaining mockers of the builder are not restored")
+			})
 		}
 	}
 	// R1: every store to a restore slot is first-write-wins, reads the target, precedes the overwrite
